@@ -100,8 +100,14 @@ Definition check_export (D : desc) (wanted : list str) (cls_export : N) (first :
      | _ => false
      end
   then true
-  else if N.eqb cls_export 0 then false
-  else existsb (fun p => N.eqb cls_export (cls (api_from_image D wanted p))) (orders fs).
+  else
+    (* with a split-name collision (two descriptors, one schema name) not only which failure is met
+       first but also whether the build succeeds, and with which schema under the shared name, depends
+       on the order: the observed API must be the API of some order *)
+    existsb (fun p => match api_from_image D wanted p with
+                      | Ok api => N.eqb cls_export 0 && same_api api first
+                      | o => N.eqb cls_export (cls o)
+                      end) (orders fs).
 
 Definition exported (st : sset) : list (ref * xroot) :=
   match export_set st with Ok l => l | _ => [] end.
